@@ -18,8 +18,9 @@ VARIABLES val,      \* [where: "none"|"rust"|"ffi", k, ptr, len]
           frees,    \* how many times "A" has been freed
           orig,     \* [ptr,len,data] of the Rust value as first made (for RoundTrip)
           bad,      \* ghost: an access touched freed/NULL memory
+          scratch,  \* a buffer foreign code got from diplomat_alloc(n * size_of<T>, align_of<T>): [st: none | live | freed, n]
           steps
-vars == <<val, data, alive, frees, orig, bad, steps>>
+vars == <<val, data, alive, frees, orig, bad, scratch, steps>>
 None == [where |-> "none", k |-> "imm", ptr |-> "null", len |-> 0]
 
 \* ---- the conversions, as documented ------------------------------------------------------
@@ -33,6 +34,7 @@ Contents(v) == ContentsOf(v, data)
 
 Init == /\ val = None /\ data = <<>> /\ alive = FALSE /\ frees = 0
         /\ orig = [ptr |-> "null", len |-> 0, data |-> <<>>] /\ bad = FALSE /\ steps = 0
+        /\ scratch = [st |-> "none", n |-> 0]
 Tick == steps < MaxSteps /\ steps' = steps + 1
 
 \* Rust creates a value of n elements (n = 0: no allocation, dangling pointer)
@@ -79,11 +81,29 @@ DropOwned == /\ Tick /\ val.where \in {"ffi", "rust"} /\ Owned(val.k)
 EndBorrow == /\ Tick /\ val.where \in {"ffi", "rust"} /\ ~Owned(val.k)
              /\ IF alive THEN alive' = FALSE /\ frees' = frees + 1 ELSE UNCHANGED <<alive, frees>>
              /\ val' = None /\ UNCHANGED <<data, orig, bad>>
-Next == \/ \E k \in Kind, n \in 0..MaxLen : RustMake(k, n)
-        \/ \E k \in Kind, n \in 1..MaxLen, m \in 0..MaxLen : RustMakeSub(k, n, m)
-        \/ \E k \in Kind : ForeignNull(k)
-        \/ Export \/ Import \/ ReadView \/ DropOwned \/ EndBorrow
-        \/ \E i \in 1..MaxLen : WriteView(i)
+ViewNext == \/ \E k \in Kind, n \in 0..MaxLen : RustMake(k, n)
+            \/ \E k \in Kind, n \in 1..MaxLen, m \in 0..MaxLen : RustMakeSub(k, n, m)
+            \/ \E k \in Kind : ForeignNull(k)
+            \/ Export \/ Import \/ ReadView \/ DropOwned \/ EndBorrow
+            \/ \E i \in 1..MaxLen : WriteView(i)
+\* foreign code makes an OWNED view of n >= 1 elements in memory it got from diplomat_alloc (how JS and C pass a Box<[T]>): Rust
+\* releases it with the layout of [T; n], which is the layout it was allocated with
+ForeignMake(k, n) ==
+  /\ Tick /\ val.where = "none" /\ ~alive /\ frees = 0 /\ Owned(k) /\ n >= 1
+  /\ LET d == [i \in 1..n |-> 64 + i] IN
+       /\ val' = [where |-> "ffi", k |-> k, ptr |-> "A", len |-> n]
+       /\ data' = d /\ alive' = TRUE
+       /\ orig' = [ptr |-> "A", len |-> n, data |-> d]
+  /\ UNCHANGED <<frees, bad>>
+\* diplomat_alloc(n * size, align) / diplomat_free(p, n * size, align) as a pair, n = 0 included (an empty buffer is still a
+\* buffer: what alloc hands out, free must take back)
+ForeignAlloc(n) == /\ Tick /\ scratch.st = "none" /\ scratch' = [st |-> "live", n |-> n]
+                   /\ UNCHANGED <<val, data, alive, frees, orig, bad>>
+ForeignFree == /\ Tick /\ scratch.st = "live" /\ scratch' = [scratch EXCEPT !.st = "freed"]
+               /\ UNCHANGED <<val, data, alive, frees, orig, bad>>
+Next == \/ (ViewNext /\ UNCHANGED scratch)
+        \/ (\E k \in Kind, n \in 1..MaxLen : ForeignMake(k, n) /\ UNCHANGED scratch)
+        \/ (\E n \in 0..MaxLen : ForeignAlloc(n)) \/ ForeignFree
 Spec == Init /\ [][Next]_vars
 
 \* ---- properties (C16) ----------------------------------------------------------------------
@@ -94,4 +114,5 @@ NullIsEmpty == (val.where = "ffi" /\ val.ptr = "null") => Contents(val) = <<>>
 NoBadAccess == ~bad
 FreedOnce == frees <= 1
 NoLeak == (val.where = "none" /\ steps > 0) => ~alive
+Finished == val.where = "none" /\ steps > 0 /\ scratch.st # "live"
 =============================================================================
